@@ -2,7 +2,7 @@
 EXTENDS Negotiate, Json, Integers
 RECURSIVE SeqOf(_)
 SeqOf(Q) == IF Q = {} THEN <<>> ELSE LET x == CHOOSE y \in Q : TRUE IN <<x>> \o SeqOf(Q \ {x})
-FamJ(s) == [mp |-> SeqOf(s.mp), ap |-> s.ap, enh |-> SeqOf(s.enh)]
+FamJ(s) == [mp |-> SeqOf(s.mp), ap |-> s.ap, enh |-> SeqOf(s.enh), ord |-> s.ord]
 GrJ(s) == [on |-> s.on, n |-> s.n, time |-> s.time, fams |-> SeqOf(s.fams)]
 LlJ(s) == [on |-> s.on, t |-> s.t]
 Emit ==
